@@ -27,6 +27,16 @@ CHECKS = {
              "formats, strided round trips, mutated and arbitrary byte strings are judged the same way.",
         design="DESIGN.md §5 C13",
         note=TRUST + "; maxval 255; exact judgement up to 4096 pixels"),
+    "C14": dict(
+        technique="TLA+ spec of the OBJ language (lines, tokens, literals, index groups) over byte sequences; TLC "
+                  "enumerates a line-level file-writing state machine and exports every file for replay; trace "
+                  "validation of recorded parse+build calls",
+        text="Every file of the line-level model (all orders of vertex, face and decoration lines with right and wrong "
+             "index tokens) is parsed and built by the real code and judged by TLC against the byte-level relation "
+             "(total, index-safe, faithful for well-formed text); random well-formed meshes, mutated files and random "
+             "bytes are judged the same way.",
+        design="DESIGN.md §5 C14",
+        note=TRUST + "; exact coordinate comparison on a lattice of short literals"),
 }
 
 NOT_YET = "check not built yet in this round (see DESIGN.md §9 for the order of work)"
